@@ -21,7 +21,8 @@ RULE = (
     "and objective weights from {0, small ints, floats} with positive sum; 1-2 estimators (mean/stddev) with per-function "
     "maps; 0-2 filters of the four kinds with per-function maps that mix -1 with filter indices; affine evaluator outputs "
     "in [-10,10] with NaN masks in any column; realization_min_success in 0..R; x as one vector or a batch of 1-3 vectors "
-    "(with repeats). Oracle: independent formula per function from the reported per-realization values and the weights in "
+    "(with repeats), obtained alone or together with a gradient whose perturbations partly fail; values with large common "
+    "offsets (1e6..1e8) and small spread. Oracle: independent formula per function from the reported per-realization values and the weights in "
     "force; metamorphic: alone == any batch position (bitwise), unrelated function values do not matter. "
     "Non-trivial: R>=2 with non-uniform weights, or a failure with a surviving positive-weight realization, or a filter "
     "map mixing -1 with a filter index, or two different estimators."
@@ -44,6 +45,7 @@ def build(case: dict[str, Any]) -> tuple[EnOptConfig, AffineEvaluator]:
         "objectives": {"weights": case["obj_weights"]},
         "function_estimators": [{"method": m} for m in case["estimators"]],
         "realization_filters": case["filters"],
+        "gradient": {"number_of_perturbations": 2, "perturbation_min_success": case.get("pmin", 2)},
     }
     if case.get("obj_est") is not None:
         cfg["objectives"]["function_estimators"] = case["obj_est"]
@@ -59,6 +61,8 @@ def build(case: dict[str, Any]) -> tuple[EnOptConfig, AffineEvaluator]:
     a = np.array(case["slopes"], dtype=np.float64).reshape(r_n, k_n + c_n, n)
     b = np.array(case["offsets"], dtype=np.float64).reshape(r_n, k_n + c_n)
     fail = {(int(r), -1): [("obj", int(col)) if col < k_n else ("con", int(col - k_n))] for r, col in case["nans"]}
+    for r, p_i in case.get("pert_nans") or []:  # failed perturbations must not influence function values
+        fail[(int(r), int(p_i))] = [("obj", 0)]
     ev = AffineEvaluator(a[:, :k_n], b[:, :k_n], a[:, k_n:] if c_n else None, b[:, k_n:] if c_n else None, fail=fail)
     return config, ev
 
@@ -137,7 +141,11 @@ def oracle_one(case: dict[str, Any], cfg: EnOptConfig, res: Any, x: np.ndarray, 
             check(exp is not None, "stddev-no-abort", f"stddev {kind} {idx} with <2 weighted realizations produced a value", case)
             got = float(reported[idx])
             scale = 1.0 + float(np.nanmax(np.abs(table[:, col])))
-            check(abs(got - exp) <= RTOL * scale, "value",
+            tol = RTOL * scale
+            if estimator_of(case, kind, idx) == "stddev":
+                live = table[:, col][w > 0]
+                tol = 1e-7 * (1.0 + float(np.max(np.abs(live - live.mean())))) + 1e-13 * scale
+            check(abs(got - exp) <= tol, "value",
                   f"{kind} {idx} ({estimator_of(case, kind, idx)}, filter {filter_of(case, kind, idx)}): reported {got!r}, "
                   f"formula {exp!r}; weights in force {w.tolist()}, values {table[:, col].tolist()}", case)
             values.append(got)
@@ -175,12 +183,18 @@ def run_case(case: dict[str, Any]) -> dict[str, Any]:
     arg = xs[0] if case["single"] else xs
     info = {"aborted": False}
     ens = EnsembleEvaluator(cfg, None, ev, _MANAGER)
+    combined = bool(case.get("combined")) and case["single"]
     try:
-        results = ens.calculate(arg, compute_functions=True, compute_gradients=False)
+        if combined:  # functions obtained together with a gradient (possibly with failed perturbations)
+            results = ens.calculate(arg, compute_functions=True, compute_gradients=True)[:1]
+        else:
+            results = ens.calculate(arg, compute_functions=True, compute_gradients=False)
     except OptimizationAborted as exc:
         info["aborted"] = True
         check(exc.exit_code == OptimizerExitCode.TOO_FEW_REALIZATIONS, "abort-code", f"{exc.exit_code}", case)
         pred = [predicted_abort(case, cfg, x, ev) for x in (xs[:1] if case["single"] else xs)]
+        if combined and "stddev" in case["estimators"]:
+            return info  # the gradient part's stddev estimator may legitimately abort (failed perturbations, all failed)
         check(any(p is not False for p in pred), "unexpected-abort", "TOO_FEW_REALIZATIONS although every function has enough weighted successes", case)
         return info
     rows = xs[:1] if case["single"] else xs
@@ -285,6 +299,11 @@ def hypothesis_shard(item: dict[str, Any]) -> Collector:
             "slopes": [draw(val) for _ in range(r_n * (k_n + c_n) * n)],
             "offsets": [draw(val) for _ in range(r_n * (k_n + c_n))],
         }
+        if draw(st.integers(0, 4)) == 0:  # values with a large common offset and a small spread (e.g. NPV-like)
+            big = draw(st.sampled_from([1e6, 2.5e7, -1e8]))
+            col_b = draw(st.integers(0, k_n + c_n - 1))
+            for r in range(r_n):
+                case["offsets"][r * (k_n + c_n) + col_b] += big
         nan_n = draw(st.sampled_from([0, 0, 1, 1, 2, 3]))
         case["nans"] = sorted({(draw(st.integers(0, r_n - 1)), draw(st.integers(0, k_n + c_n - 1))) for _ in range(nan_n)})
         b_n = draw(st.integers(1, 3))
@@ -294,6 +313,9 @@ def hypothesis_shard(item: dict[str, Any]) -> Collector:
         case["xs"] = pts
         case["single"] = b_n == 1 and draw(st.booleans())
         case["meta_col"] = draw(st.integers(0, 5)) if draw(st.booleans()) else None
+        case["combined"] = draw(st.booleans())
+        case["pmin"] = draw(st.integers(1, 2))
+        case["pert_nans"] = sorted({(draw(st.integers(0, r_n - 1)), draw(st.integers(0, 1))) for _ in range(draw(st.sampled_from([0, 0, 1, 2, 3])))})
         return case
 
     def body(case: dict[str, Any]) -> None:
@@ -330,4 +352,5 @@ def run_shard(item: dict[str, Any]) -> Collector:
 def replay(case: dict[str, Any]) -> None:
     case = dict(case)
     case["nans"] = [tuple(x) for x in case["nans"]]
+    case["pert_nans"] = [tuple(x) for x in case.get("pert_nans") or []]
     run_case(case)
